@@ -2,6 +2,8 @@ package main
 
 import (
 	"fmt"
+	"go/token"
+	"golang.org/x/tools/go/ssa"
 	"strings"
 )
 
@@ -50,3 +52,59 @@ func ruleNoWriteThrough(p *Program, r *Report) {
 		r.Undecided("appends", fmt.Sprintf("only %d append sites analysed (about 200 confirmed by hand)", nAppend), 0)
 	}
 }
+
+// R03b: a frozen builder is finished in place.  frozen's builders mutate their nodes in place while building and
+// hand the nodes over on Finish, which also resets the builder.  Finishing a *copy* of a builder (a local variable
+// initialised from `*b`) leaves the original pointing into the finished value: the next Put on it rewrites a value
+// that was already handed out.
+func ruleBuilderFinishedInPlace(p *Program, r *Report) {
+	r.Begin("R03b", "builders are finished in place: every call of a frozen builder's Finish in the module has as receiver the builder itself (a field, a parameter, a variable that was built into), never a local copy initialised from another builder — the original would keep pointing into the finished, shared nodes", 5)
+	defer r.End()
+	n := 0
+	for _, fn := range p.RepoFns {
+		ord := 0
+		ForEachInstr(fn, func(ins ssa.Instruction) {
+			c, ok := ins.(*ssa.Call)
+			if !ok {
+				return
+			}
+			g := c.Call.StaticCallee()
+			if g == nil || InRepo(g) || baseName(g) != "Finish" || !strings.Contains(g.String(), "arr-ai/frozen") || !strings.Contains(g.String(), "Builder") || len(c.Call.Args) == 0 {
+				return
+			}
+			n++
+			ord++
+			r.Fn(FnName(fn))
+			key := fmt.Sprintf("finish@%s~%d", FnName(fn), ord)
+			recv := c.Call.Args[0]
+			copyOf := ""
+			if al, isAl := recv.(*ssa.Alloc); isAl && al.Referrers() != nil {
+				if _, isParam := paramCell(al); !isParam {
+					for _, ref := range *al.Referrers() {
+						st, isSt := ref.(*ssa.Store)
+						if !isSt || st.Addr != ssa.Value(al) {
+							continue
+						}
+						v := st.Val
+						for i := 0; i < 3; i++ {
+							if ct, isCT := v.(*ssa.ChangeType); isCT {
+								v = ct.X
+							}
+						}
+						if ld, isLd := v.(*ssa.UnOp); isLd && ld.Op == token.MUL {
+							if _, fromAlloc := ld.X.(*ssa.Alloc); !fromAlloc {
+								copyOf = baseDesc(ld.X)
+							}
+						}
+					}
+				}
+			}
+			r.Check(copyOf == "", key, "finished in place", fmt.Sprintf("%s calls Finish on a local copy of a builder (copied from %s): the original builder is not reset and still points at the nodes of the value just returned, so the next Put through it changes that value", FnName(fn), copyOf), c.Pos())
+		})
+	}
+	if n == 0 {
+		r.Undecided("sites", "no frozen builder Finish call found", 0)
+	}
+}
+
+func init() { register("C03", Rule{"R03b", ruleBuilderFinishedInPlace}) }
